@@ -2,7 +2,7 @@
    Tournament selection keeps the fittest and builds a well-formed generation. *)
 From Coq Require Import List Arith ZArith QArith.
 Import ListNotations.
-From AgileV Require Import Base.Prelude C05.Model C05.Proofs C05.SortModel C05.SortProofs C05.HeapModel C05.HeapProofs C05.PinnedModel C05.PinnedProofs C05.Check.
+From AgileV Require Import Base.Prelude C05.Model C05.Proofs C05.SortModel C05.SortProofs C05.HeapModel C05.HeapProofs C05.PinnedModel C05.PinnedProofs C05.AnyRankProofs C05.WrapperPinnedModel C05.WrapperPinnedProofs C05.Check.
 Local Open Scope nat_scope.
 
 (* np.argsort(x).argsort() with a stable sort is a valid ranking: a permutation of 0..n-1 that is
@@ -199,6 +199,41 @@ Theorem pinned_training_changes_parent_refuted :
                  abs (writes h' ws) a <> abs pin_heap a.
 Proof. exact pinned_training_changes_parent. Qed.
 Print Assumptions pinned_training_changes_parent_refuted.
+
+(* ---- deepening: the sort may break ties any way it likes ---- *)
+(* whatever permutation np.argsort returns, as long as it sorts the means (weakly increasing along the
+   permutation), np.argsort of it (its inverse permutation) is a valid ranking: all theorems above then apply.
+   The only thing assumed of NumPy's unstable sort is that its output is a sorting permutation. *)
+Theorem any_argsort_gives_valid_ranking : forall (m : list Q) (s : list nat),
+  sorting_perm m s -> valid_ranking m (inverse_perm s).
+Proof. exact any_argsort_valid_lemma. Qed.
+Print Assumptions any_argsort_gives_valid_ranking.
+
+Theorem stable_argsort_is_sorting_perm : forall m : list Q, sorting_perm m (argsort_stable m).
+Proof. exact argsort_stable_sorting. Qed.
+Print Assumptions stable_argsort_is_sorting_perm.
+
+(* float means: a ranking valid for the scores the code actually computed (f) is valid for the exact window
+   means (q) whenever f orders the agents like q — the per-case condition the harness checks with Fractions *)
+Theorem valid_ranking_transfers_from_float_means : forall (q f : list Q) rk, length f = length q ->
+  (forall i j, i < length q -> j < length q -> (nth i q 0 < nth j q 0)%Q -> (nth i f 0 < nth j f 0)%Q) ->
+  valid_ranking f rk -> valid_ranking q rk.
+Proof. exact valid_ranking_transfer_lemma. Qed.
+Print Assumptions valid_ranking_transfers_from_float_means.
+
+(* ---- seeded wrapper defect (round 2): clone through an AgentWrapper whose `index` is a pass-through
+   property writes the parent's index over the fresh one ---- *)
+Theorem select_with_gen_real_clone_is_select_with : forall (P : Type) rk c (pop : list (agent P)) draws,
+  select_with_gen clone rk c pop draws = select_with rk c pop draws.
+Proof. exact @select_with_gen_clone. Qed.
+Print Assumptions select_with_gen_real_clone_is_select_with.
+
+Theorem wrapper_index_overwritten_refuted :
+  exists e np, select_with_gen clone_index_overwritten (ranks (means wp_cfg wp_pop)) wp_cfg wp_pop wp_draws = Some (e, np) /\
+    map a_index np = [1; 1; 1; 4; 3]%Z /\ ~ NoDup (map a_index np) /\
+    (exists x, In x (skipn (off wp_cfg) (map a_index np)) /\ In x (map a_index wp_pop)).
+Proof. exact wrapper_index_overwritten. Qed.
+Print Assumptions wrapper_index_overwritten_refuted.
 
 (* ---- non-vacuity: concrete populations with ties, negative and unequal-length histories ---- *)
 Definition ex_pop : list (agent nat) :=
